@@ -117,6 +117,11 @@ def check_log2(run, rule=RULE):
             if m is not None:
                 break
         if m is None:
+            m1 = matches('array(_M) @ _T', V)
+            if m1 is not None:
+                m = dict(m1)
+                m['_D'] = ast.Constant(value=1)
+        if m is None:
             run.error('%s: trlog2: translational part %s is not [[A, B], [-B, A]] @ t / (A^2 + B^2)' % (rule, src(V, 60)))
             continue
         if not any(matches(p_, m['_T']) is not None for p_ in (tslot, 'transl2(%s)' % Tn)):
